@@ -744,10 +744,22 @@ void RunScenarioStep(Scenario* sc, const vector<string>& w, vector<string>* ev, 
   else { ev->push_back("ev bad-step " + op); }
 }
 
+vector<string>* g_pending_ev = nullptr;
+void CrashDump(int sig) {
+  // the engine died (abort/segv): flush the events seen so far, they are the replay's explanation
+  if (g_pending_ev) for (auto& e : *g_pending_ev) { fputs(e.c_str(), stdout); fputc('\n', stdout); }
+  printf("ev engine-died signal=%d\n", sig);
+  fflush(stdout);
+  signal(sig, SIG_DFL);
+  raise(sig);
+}
+
 int run_engine(int, char**) {
   string line;
   std::unique_ptr<Scenario> sc;
   vector<string> ev;
+  g_pending_ev = &ev;
+  signal(SIGABRT, CrashDump); signal(SIGSEGV, CrashDump);
   int build_no = 0;
   char tmpl[] = "/dev/shm/verif-eng-XXXXXX";
   char* base = mkdtemp(tmpl);
